@@ -66,6 +66,10 @@ CLAIMED = {
             "Theorems C10_invariant/C10_partition/C10_answer/C10_eligible/C10_deferral/C10_inbound hold for every history of the folder-level model; the model is tied to mailbox/syncdir.go by running 400 (5000) random histories of up to 40 operations (AddOut, Prepare, restart in normal and send-only mode, GetOutbound for CMS and P2P forwarder lists, SetSent, SetDeferred, ProcessInbound, GetInboundAnswer, SetUnread, listings) on a temporary directory and comparing every observation, including the absence of private headers on returned messages and the file-name listing order.",
             "A stored message is abstracted to MID, receiver strings, P2P-only and unread flags and a content tag (message serialisation is C09's); the file system is the operating system's (ReadDir order validated by correspondence); log.Fatalf of SetSent on a missing file is modelled as a fatal observation and exercised in a child process.",
             "DESIGN.md section 6 C10"),
+    "C11": ("Coq proof over a system-call model of the mailbox operations that every crash point (every call boundary, every prefix of a write) leaves only complete messages visible + strace of the real operations compared with the model's call sequences + real recovery code run on every materialised crash state",
+            "Theorems C11_store/C11_store_atomic/C11_setsent/C11_setsent_others hold for every file system, message, and crash point (k, j). The tie: each file-modifying operation (AddOut, ProcessInbound, SetUnread, SetSent) is executed by the real code under strace on every run and its calls on mailbox files must equal the model's; the model's crash states (quick: 24 write prefixes per store, thorough: every byte) are written to disk and the real recovery path (fresh DirHandler, Prepare, listings, GetInboundAnswer, GetOutbound) must load every folder, find older messages intact, the outbound message in exactly one folder, and answer 'already received' only for a complete copy.",
+            "The file system semantics (open-truncate, append write, atomic rename within a directory) are the model's assumptions; durability (fsync, power-loss reordering) is outside the model; strace is part of the trusted base of this check.",
+            "DESIGN.md section 6 C11"),
 }
 
 NOT_YET = {}
